@@ -1,5 +1,51 @@
 # per-property configuration of bin/check
 PROPS = {
+    "C01": {
+        "runner": "C01",
+        "replay_hint": "evaluate the printed program in a fresh environment (lisp.READ + lisp.EVAL), e.g. echo PROGRAM | go/bin/enc -impl",
+        "technique": 'Coq model of EVAL (fuel-indexed transcription) + per-clause equations proved on it; correspondence model vs Go on exhaustive small + random typed programs; definitional templates as direct oracle',
+        "level_text": "Theorems C01_* are equations about one iteration of the transcribed EVAL loop (def in current scope returns value, fn captures its scope, if evaluates only the selected branch with nil/false falsy, quote, closure call binds parameters in a child of the defining scope after evaluating arguments once left to right); they hold for all programs, states and fuel. The evaluator model is tied to the code by the correspondence check (every program of a small enumeration + seeded typed random programs, results/errors and ordered trace! effects compared with the extracted model, which loads the repository's own lisp headers regenerated on every run) and by definitional templates with prescribed outcomes. A full refinement to a separate definitional evaluator is not proved (see DESIGN).",
+        "level_note": "trusted: Coq kernel+VM, extraction (ExtrOcamlBasic), OCaml glue driver, Go harness, translator go/cmd/gen (headers through the repository's own reader); modelled not verified: Go runtime behaviour behind each checked primitive (index/slice/type assertion), reflect assignability, map iteration order (programs with effects inside map literals are not generated), metadata, printing of functions/atoms",
+        "trusted": ["hand-written model of mal.go/env.go/call.go/core.go (Eval.v, Env.v, Binder.v, Core.v); tie = correspondence + regenerated headers"],
+        "assumptions": ["programs terminate within the model fuel (RUN_FUEL=20000 loop iterations)"],
+    },
+    "C03": {
+        "runner": "C03",
+        "replay_hint": "evaluate the printed program in a fresh environment (lisp.READ + lisp.EVAL), e.g. echo PROGRAM | go/bin/enc -impl",
+        "technique": "Coq model of try/catch/finally inside the EVAL transcription + lemmas (payload preserved by re-positioning, finally exactly once with outcome unchanged, handler gets the body's error); correspondence on generated nested try programs; templates as direct oracle",
+        "level_text": "Theorems C03_* hold for all states/continuations of the model: re-wrapping never changes the payload, throw delivers values as payload and Go errors unchanged, the catch variable is bound to the payload, the deferred finally runs exactly once after body and handler in the try's own scope and cannot change the outcome. Tie to the code: correspondence on generated programs nesting try/catch/finally with throws in body/callee/builtin/map/apply/macro/handler and every data kind as thrown object (value, error payload, ordered trace compared), plus templates with prescribed outcomes.",
+        "level_note": "trusted: Coq kernel+VM, extraction (ExtrOcamlBasic), OCaml glue driver, Go harness, translator go/cmd/gen (headers through the repository's own reader); modelled not verified: Go runtime behaviour behind each checked primitive (index/slice/type assertion), reflect assignability, map iteration order (programs with effects inside map literals are not generated), metadata, printing of functions/atoms",
+        "trusted": ["hand-written model of mal.go/env.go/call.go/core.go (Eval.v, Env.v, Binder.v, Core.v); tie = correspondence + regenerated headers"],
+        "assumptions": ["programs terminate within the model fuel (RUN_FUEL=20000 loop iterations)"],
+    },
+    "C04": {
+        "runner": "C04",
+        "replay_hint": "evaluate the printed program in a fresh environment (lisp.READ + lisp.EVAL), e.g. echo PROGRAM | go/bin/enc -impl",
+        "technique": 'Coq model with explicit Panic outcome for every unchecked Go operation; theorems that the binder converts every panic; exhaustive malformed-special-form and builtin x operand enumeration vs the model; recover() as direct oracle',
+        "level_text": 'Proved for all inputs: a builtin bound through the reflective binder never lets a panic out (arity gate, reflect assignability, the function body, and callbacks of higher-order builtins). For the special forms the model returns Panic exactly where Go would panic; that no such site is reachable is checked, not yet proved: every special-form head x every operand list up to length 3 (4 thorough) over a 23-element universe of malformed operands, every modelled builtin x 0..3 operands, random ASTs — implementation under recover() vs the model, 0 Panic outcomes on either side.',
+        "level_note": "trusted: Coq kernel+VM, extraction (ExtrOcamlBasic), OCaml glue driver, Go harness, translator go/cmd/gen (headers through the repository's own reader); modelled not verified: Go runtime behaviour behind each checked primitive (index/slice/type assertion), reflect assignability, map iteration order (programs with effects inside map literals are not generated), metadata, printing of functions/atoms; the unbounded no-panic theorem for the special forms themselves is not proved in this revision (partial)",
+        "trusted": ["hand-written model of mal.go/env.go/call.go/core.go (Eval.v, Env.v, Binder.v, Core.v); tie = correspondence + regenerated headers"],
+        "assumptions": ["programs terminate within the model fuel (RUN_FUEL=20000 loop iterations)"],
+    },
+    "C08": {
+        "runner": "C08",
+        "vm_k": 3,
+        "replay_hint": "evaluate the printed program in a fresh environment (lisp.READ + lisp.EVAL), e.g. echo PROGRAM | go/bin/enc -impl",
+        "technique": 'Coq model of EVAL with an explicit host-stack depth parameter; theorems that tail positions continue at the same depth; numeric comparison of predicted vs observed lisp.EVAL frame counts for generated loop shapes',
+        "level_text": "Theorems C08_*: in the transcribed EVAL the selected if branch, the last form of do, the body of a called closure and the expansion of a macro call are evaluated at the same depth d (= number of lisp.EVAL frames), for all programs/states/fuel. cond/and/or are the repository's own lisp text (regenerated), their constant depth is shown by computed examples and by the correspondence: for each generated loop shape (1-3 mutually recursive functions, nested tail contexts do/let/if/cond/and/or/fn-body) the model predicts the exact number of frames at n=0,1,2,10,120 and the harness counts them with runtime.Callers.",
+        "level_note": "trusted: Coq kernel+VM, extraction (ExtrOcamlBasic), OCaml glue driver, Go harness, translator go/cmd/gen (headers through the repository's own reader); modelled not verified: Go runtime behaviour behind each checked primitive (index/slice/type assertion), reflect assignability, map iteration order (programs with effects inside map literals are not generated), metadata, printing of functions/atoms; a general theorem over all tail contexts at once (induction on contexts) is not stated, only the per-construct equations",
+        "trusted": ["hand-written model of mal.go/env.go/call.go/core.go (Eval.v, Env.v, Binder.v, Core.v); tie = correspondence + regenerated headers"],
+        "assumptions": ["programs terminate within the model fuel (RUN_FUEL=20000 loop iterations)"],
+    },
+    "C12": {
+        "runner": "C12",
+        "replay_hint": "evaluate the printed program in a fresh environment (lisp.READ + lisp.EVAL), e.g. echo PROGRAM | go/bin/enc -impl",
+        "technique": 'Coq theorem: quasiquote expansion = template substitution for every evaluator giving quote/cons/concat/vec their standard meaning; macroexpand lemmas; correspondence + generator-side substitution oracle',
+        "level_text": "C12_quasiquote_is_template is proved for all templates of any nesting (induction on values), in the state monad, so it covers value, error and effect order; macro lemmas: operands handed over unevaluated, macroexpand result's head is not a macro, call = expansion then evaluation in the caller's scope, non-macro forms untouched. Tie: correspondence on generated templates/macros (user macros incl. recursive and nullary ones, cond/and/or/->/->>), with the expected value and trace computed by the generator outside the interpreter, and call vs (eval (macroexpand call)).",
+        "level_note": "trusted: Coq kernel+VM, extraction (ExtrOcamlBasic), OCaml glue driver, Go harness, translator go/cmd/gen (headers through the repository's own reader); modelled not verified: Go runtime behaviour behind each checked primitive (index/slice/type assertion), reflect assignability, map iteration order (programs with effects inside map literals are not generated), metadata, printing of functions/atoms; that the real evaluator satisfies the standard-meaning hypotheses of the quasiquote theorem is checked by correspondence, not proved",
+        "trusted": ["hand-written model of mal.go/env.go/call.go/core.go (Eval.v, Env.v, Binder.v, Core.v); tie = correspondence + regenerated headers"],
+        "assumptions": ["programs terminate within the model fuel (RUN_FUEL=20000 loop iterations)"],
+    },
     "C14": {
         "runner": "C14",
         "technique": "Coq proof (nested induction) that the transcription of Equal_Q equals structural equality, which is an equivalence; correspondence model vs Go on exhaustive+random pairs",
